@@ -483,88 +483,196 @@ func ruleEncLayout(c *Ctx, r *Reporter) {
 	}
 	name := c.fnName(fn)
 	sep, _ := sepConst(c)
-	// follow the dst chain backwards from the return value
+	code, _, _, cerr := extractCode(c)
+	minFirst := int64(256)
+	if cerr == "" {
+		for b := 0; b < 256; b++ {
+			if len(code[b]) > 0 && int64(code[b][0]) < minFirst {
+				minFirst = int64(code[b][0])
+			}
+		}
+	}
+	// parse the chain of appends behind the return value into parts
+	type part struct {
+		kind  string // "enc:primary", "enc:secondary", "bytes", "len16", "?"
+		bytes []int64
+	}
+	var parts []part
+	constBytes := func(v ssa.Value) ([]int64, bool) {
+		sl, ok := v.(*ssa.Slice)
+		if !ok {
+			return nil, false
+		}
+		arr, ok := sl.X.(*ssa.Alloc)
+		if !ok {
+			return nil, false
+		}
+		n := int(arr.Type().(*types.Pointer).Elem().Underlying().(*types.Array).Len())
+		out := make([]int64, n)
+		seen := 0
+		for _, st := range storesToElems(fn, arr) {
+			k, _ := constInt(st.Addr.(*ssa.IndexAddr).Index)
+			v, ok := constInt(st.Val)
+			if !ok || int(k) >= n {
+				return nil, false
+			}
+			out[k] = v
+			seen++
+		}
+		return out, seen == n
+	}
 	ret := returnsOf(fn)
-	good := false
-	why := "unexpected shape"
-	if len(ret) == 1 {
+	why := ""
+	if len(ret) != 1 {
+		why = "more than one return"
+	} else {
 		v := ret[0].Results[0]
-		// AppendUint16(be, buf, uint16(primaryLen))
-		if call, ok := v.(*ssa.Call); ok && strings.HasSuffix(c.calleeName(call), "AppendUint16") && len(call.Call.Args) == 3 {
-			buf := call.Call.Args[1]
-			lenv := stripConv(call.Call.Args[2])
-			// buf = extract #1 of appendEncode(x, primary); lenv = extract #0 of the same call
-			e1, ok1 := buf.(*ssa.Extract)
-			e0, ok0 := lenv.(*ssa.Extract)
-			if ok1 && ok0 && e1.Tuple == e0.Tuple && e1.Index == 1 && e0.Index == 0 {
-				if enc2, ok := e1.Tuple.(*ssa.Call); ok && c.calleeName(enc2) == "statedb.appendEncode" && stripConv(enc2.Call.Args[1]) == ssa.Value(fn.Params[0]) {
-					// its dst = append(x, sep)
-					if ap, ok := enc2.Call.Args[0].(*ssa.Call); ok {
-						if b, ok := ap.Call.Value.(*ssa.Builtin); ok && b.Name() == "append" {
-							sepOK := false
-							if sl, ok := ap.Call.Args[1].(*ssa.Slice); ok {
-								if arr, ok := sl.X.(*ssa.Alloc); ok {
-									sts := storesToElems(fn, arr)
-									if len(sts) == 1 {
-										if k, ok := constInt(sts[0].Val); ok && k == sep {
-											sepOK = true
-										}
-									}
-								}
-							}
-							if e, ok := ap.Call.Args[0].(*ssa.Extract); ok && e.Index == 1 && sepOK {
-								if enc1, ok := e.Tuple.(*ssa.Call); ok && c.calleeName(enc1) == "statedb.appendEncode" && stripConv(enc1.Call.Args[1]) == ssa.Value(fn.Params[1]) {
-									good = true
-								} else {
-									why = "the first part is not appendEncode(secondary)"
-								}
-							} else {
-								why = "the delimiter appended between the parts is not exactly the separator constant"
+		for depth := 0; depth < 12 && v != nil; depth++ {
+			switch x := v.(type) {
+			case *ssa.Call:
+				cn := c.calleeName(x)
+				switch {
+				case strings.HasSuffix(cn, "AppendUint16") && len(x.Call.Args) == 3:
+					parts = append(parts, part{kind: "len16"})
+					v = x.Call.Args[1]
+					continue
+				default:
+					if b, ok := x.Call.Value.(*ssa.Builtin); ok && b.Name() == "append" {
+						if bs, ok := constBytes(x.Call.Args[1]); ok {
+							parts = append(parts, part{kind: "bytes", bytes: bs})
+						} else {
+							parts = append(parts, part{kind: "?"})
+						}
+						v = x.Call.Args[0]
+						continue
+					}
+				}
+				v = nil
+			case *ssa.Extract:
+				if enc, ok := x.Tuple.(*ssa.Call); ok && x.Index == 1 && c.calleeName(enc) == "statedb.appendEncode" {
+					src := stripConv(enc.Call.Args[1])
+					switch src {
+					case ssa.Value(fn.Params[0]):
+						parts = append(parts, part{kind: "enc:primary"})
+					case ssa.Value(fn.Params[1]):
+						parts = append(parts, part{kind: "enc:secondary"})
+					default:
+						parts = append(parts, part{kind: "?"})
+					}
+					v = enc.Call.Args[0]
+					continue
+				}
+				v = nil
+			default:
+				v = nil // the initial make
+			}
+		}
+	}
+	// reverse
+	for i, j := 0, len(parts)-1; i < j; i, j = i+1, j-1 {
+		parts[i], parts[j] = parts[j], parts[i]
+	}
+	var shape []string
+	for _, p := range parts {
+		shape = append(shape, p.kind)
+	}
+	good := why == "" && len(parts) == 4 && parts[0].kind == "enc:secondary" && parts[1].kind == "bytes" && len(parts[1].bytes) == 1 && parts[1].bytes[0] == sep && parts[2].kind == "enc:primary"
+	if why == "" && !good {
+		why = "the key is not enc(secondary), the separator constant, enc(primary), tail (found: " + strings.Join(shape, ", ") + ")"
+	}
+	r.check(good, name+"|enc(secondary) sep enc(primary) tail", c.posStr(fn.Pos()), "layout is appendEncode(secondary), separator, appendEncode(primary), a fixed-size tail", "composite key layout broken: "+why)
+	tailLen := int64(-1)
+	if good {
+		// what follows enc(primary) takes part in the comparison whenever one primary key is a proper
+		// prefix of another: it must be constant and below the first byte of every code word
+		tail := parts[3]
+		switch tail.kind {
+		case "bytes":
+			tailLen = int64(len(tail.bytes))
+			ok := len(tail.bytes) > 0 && tail.bytes[0] < minFirst
+			r.check(ok, name+"|primary is terminated below every code word", c.posStr(fn.Pos()), fmt.Sprintf("the tail % x starts below the smallest first byte of a code word (0x%02x): a primary key sorts before its extensions", tail.bytes, minFirst), fmt.Sprintf("the constant tail % x after enc(primary) does not start below every code word (smallest first byte 0x%02x): a primary key that is a prefix of another one can sort after it", tail.bytes, minFirst))
+		case "len16":
+			tailLen = 2
+			r.bad(name+"|primary is terminated below every code word", c.posStr(fn.Pos()), "enc(primary) is followed by the 16-bit length of the primary: when one primary key is a proper prefix of another the length bytes are compared with the continuation of the longer key, and from a length of 258 on (high byte 0x01, not below every code word) the shorter key sorts after the longer one; the length also wraps at 64 KiB")
+		default:
+			r.undecided(name+"|primary is terminated below every code word", c.posStr(fn.Pos()), "unrecognised tail after enc(primary)")
+		}
+	}
+	// accessors agree with the layout: 1 separator byte + tail
+	if tailLen > 0 {
+		total := 1 + tailLen
+		if f := c.Func("statedb", "nonUniqueKey", "primaryLen"); f != nil {
+			// len(k) - secondaryLen() - (1+tail), or the stored length for a len16 tail
+			ok := false
+			usesSec := false
+			for _, ia := range allInstrs(f) {
+				if call, ok := ia.In.(*ssa.Call); ok {
+					if sf := staticCallee(call); sf != nil && sf.Name() == "secondaryLen" {
+						usesSec = true
+					}
+				}
+			}
+			cs := intConsts(f)
+			if usesSec {
+				ok = true
+				for _, k := range cs {
+					if k != 0 && k != total {
+						ok = false
+					}
+				}
+			} else {
+				// reads the trailer
+				ok = true
+				for _, k := range cs {
+					if k != 0 && k != total && k != tailLen {
+						ok = false
+					}
+				}
+			}
+			r.check(ok, "statedb.(nonUniqueKey).primaryLen|offsets", c.posStr(f.Pos()), fmt.Sprintf("uses only the layout's offsets (separator+tail = %d)", total), fmt.Sprintf("the accessor's constants %v differ from the key layout (1 separator byte + %d tail bytes): the composite key is split at the wrong place", cs, tailLen))
+		} else {
+			r.anchorMissing("statedb.(nonUniqueKey).primaryLen")
+		}
+		if f := c.Func("statedb", "nonUniqueKey", "secondaryLen"); f != nil {
+			ok := false
+			// first occurrence of the separator, or len(k) - primaryLen() - (1+tail)
+			for _, ia := range allInstrs(f) {
+				if call, ok2 := ia.In.(*ssa.Call); ok2 {
+					if c.calleeName(call) == "bytes.IndexByte" {
+						if k, ok3 := constInt(call.Call.Args[1]); ok3 && k == sep {
+							ok = true
+						}
+					}
+					if sf := staticCallee(call); sf != nil && sf.Name() == "primaryLen" {
+						ok = true
+						for _, k := range intConsts(f) {
+							if k != 0 && k != total {
+								ok = false
 							}
 						}
 					}
-				} else {
-					why = "the second part is not appendEncode(primary)"
 				}
-			} else {
-				why = "the length trailer is not the encoded length of the primary returned by the same appendEncode call"
 			}
+			r.check(ok, "statedb.(nonUniqueKey).secondaryLen|offsets", c.posStr(f.Pos()), "the secondary part ends at the first separator byte (the escaped secondary contains none) or at len - primaryLen - separator - tail", "secondaryLen does not locate the separator consistently with the key layout")
 		} else {
-			why = "the key does not end with a big-endian 16 bit length"
+			r.anchorMissing("statedb.(nonUniqueKey).secondaryLen")
 		}
-	}
-	r.check(good, name+"|enc(secondary) sep enc(primary) len16", c.posStr(fn.Pos()), "layout is appendEncode(secondary), separator, appendEncode(primary), uint16(encoded primary length)", "composite key layout broken: "+why)
-	// accessors
-	type acc struct {
-		name   string
-		consts map[int64]int
-	}
-	for _, a := range []acc{
-		{"primaryLen", map[int64]int{3: 1, 2: 1}},
-		{"secondaryLen", map[int64]int{3: 1}},
-		{"encodedPrimary", map[int64]int{2: 2}},
-	} {
-		f := c.Func("statedb", "nonUniqueKey", a.name)
-		if f == nil {
-			r.anchorMissing("statedb.(nonUniqueKey)." + a.name)
-			continue
-		}
-		got := map[int64]int{}
-		for _, k := range intConsts(f) {
-			got[k]++
-		}
-		ok := true
-		for k, n := range a.consts {
-			if got[k] != n {
-				ok = false
+		if f := c.Func("statedb", "nonUniqueKey", "encodedPrimary"); f != nil {
+			ok := true
+			n := 0
+			for _, k := range intConsts(f) {
+				if k == 0 {
+					continue
+				}
+				n++
+				if k != tailLen {
+					ok = false
+				}
 			}
+			r.check(ok && n >= 1, "statedb.(nonUniqueKey).encodedPrimary|offsets", c.posStr(f.Pos()), fmt.Sprintf("the primary part ends %d bytes before the end of the key", tailLen), fmt.Sprintf("encodedPrimary's offsets differ from the tail length %d", tailLen))
+		} else {
+			r.anchorMissing("statedb.(nonUniqueKey).encodedPrimary")
 		}
-		for k := range got {
-			if _, exp := a.consts[k]; !exp && k != 0 {
-				ok = false
-			}
-		}
-		r.check(ok, "statedb.(nonUniqueKey)."+a.name+"|offsets", c.posStr(f.Pos()), fmt.Sprintf("uses the trailer/delimiter offsets %v", a.consts), fmt.Sprintf("the accessor's offsets %v differ from the key layout (2-byte trailer, 1-byte delimiter; expected %v): the composite key is split at the wrong place", got, a.consts))
 	}
 	if f := c.Func("statedb", "nonUniqueKey", "encodedSecondary"); f != nil {
 		good := false
@@ -606,7 +714,7 @@ func ruleEncEndian(c *Ctx, r *Reporter) {
 		r.anchorMissing("encoding/binary calls")
 	}
 	// the functions that define the key formats must use encoding/binary (no hand-rolled byte order)
-	for _, name := range []string{"index.Uint16", "index.Uint32", "index.Uint64", "lpm.EncodeLPMKey", "lpm.DecodeLPMKey", "statedb.encodeNonUniqueKey", "statedb.(nonUniqueKey).primaryLen"} {
+	for _, name := range []string{"index.Uint16", "index.Uint32", "index.Uint64", "lpm.EncodeLPMKey", "lpm.DecodeLPMKey"} {
 		fn := c.fnByName(name)
 		if fn == nil {
 			r.anchorMissing(name)
